@@ -75,6 +75,7 @@ func main() {
 		"plaintext lengths up to 6 chunks (400 000 bytes); unbounded sizes are not explored",
 		"the plaintext reader is consumed by Read loops with 8 buffer sizes, by io.Copy into a plain Writer (uses a WriteTo of the reader if there is one) and by io.ReadAll",
 		"a result that differs from the baseline under every delivery schedule it was run with is reported once with sched=* (the cause is then the consumption mode / buffer / handed-in bufio, not the schedule)",
+		"header-size sweep: valid reference-written files with headers of round-d bytes (round = 4096*k, 64 KiB, 1 MiB; 16 MiB in thorough), one large unknown stanza or many ssh-ed25519-looking stanzas, 5000-byte plaintext behind it",
 		"CLI output stage: printable LF-only UTF-8 texts through a pty (CR stripped), -o -, a pipe and -o FILE; a differing route is a violation only if the pipe route and the shifted control succeed, every run is retried once",
 		"optional interfaces (ByteReader, RuneReader, ByteScanner, WriterTo, ReaderAt, Seeker / StringWriter, ByteWriter, ReaderFrom) are discovered by type assertion on every returned value; one that is absent is recorded, not judged",
 		"consumer kinds over armor.NewReader (bufio ReadByte/ReadString/Peek/WriteTo/Read, Scanner, ReadFull blocks, 1-byte CopyBuffer, iotest.OneByteReader) run under the schedules whole, 1byte, random, bufio16over1byte",
@@ -140,6 +141,9 @@ func main() {
 		if r.Counter("lead100_runs/"+k) == 0 {
 			r.Inconclusive("no armored file with >= 100 leading blank lines was consumed by %s", k)
 		}
+	}
+	if r.Counter("header_size_runs/trickled") == 0 || r.Counter("header_size_runs/bulk") == 0 {
+		r.Inconclusive("the header-size sweep did not run under both a trickled and a bulk schedule")
 	}
 	if m.binding.Load() == 0 {
 		r.Inconclusive("no read-ahead check was binding (no file longer than the bound)")
